@@ -37,6 +37,9 @@ type Spec struct {
 	Types   []TypeDef `json:"types,omitempty"`
 	Rules   []RuleDef `json:"rules,omitempty"`
 	OptKeys bool      `json:"keys_optional_by_default,omitempty"`
+	// FullReg: every JSight type is also added to every other JSight type (the way an API
+	// document registers its types), not only to the root.
+	FullReg bool `json:"types_added_to_every_type,omitempty"`
 }
 
 // Obs is what one call returned.
@@ -152,7 +155,8 @@ func Build(sp Spec) (s *njs.Schema, o Obs) {
 			return s, Observe(err)
 		}
 	}
-	for _, t := range sp.Types {
+	built := make([]jschema.Schema, len(sp.Types))
+	for i, t := range sp.Types {
 		var ts jschema.Schema
 		if t.Regex {
 			ts = regex.New(t.Name, t.Text)
@@ -173,7 +177,25 @@ func Build(sp Spec) (s *njs.Schema, o Obs) {
 			}
 			ts = tj
 		}
-		if err := s.AddType(t.Name, ts); err != nil {
+		built[i] = ts
+	}
+	if sp.FullReg {
+		for i, t := range sp.Types {
+			if t.Regex {
+				continue
+			}
+			for j, u := range sp.Types {
+				if i == j {
+					continue
+				}
+				if err := built[i].AddType(u.Name, built[j]); err != nil {
+					return s, Observe(err)
+				}
+			}
+		}
+	}
+	for i, t := range sp.Types {
+		if err := s.AddType(t.Name, built[i]); err != nil {
 			return s, Observe(err)
 		}
 	}
